@@ -238,14 +238,14 @@ def _c17_cov(rs):
 
 CHECKS["C17"] = dict(
     level="model_checking",
-    rule="Stateless exploration of thread schedules with iterated preemption bound (CHESS style) over 17 scenarios of 2-3 real threads forced to collide on lazily "
+    rule="Stateless exploration of thread schedules with iterated preemption bound (CHESS style) over 18 scenarios of 2-3 real threads forced to collide on lazily "
          "initialised or shared library state (first use of regex categories; parsers sharing one locked grammar pool validating the same type / DTD element for the "
          "first time, and - with PSVI handlers and a walk over the pool's XSModel - against identity constraints, substitution groups, union / list types and xsi:type; named transcoders; private schema builds; case-insensitive and complement-of-block regex atoms; owner-less DOMDocumentType; DOMImplementationRegistry; local-code-page transcoding; parser construction and progressive scan tokens; message "
          "loading; private DOM build/serialise). Scheduling points: thread start/end and before-lock / inside-critical-section / after-unlock of every library mutex "
          "(through the XMLPlatformUtils::fgMutexMgr seam). Exactly one thread runs at a time; all schedules with <= b preemptions are enumerated breadth-first by "
          "preemption count (b=1 quick, b=2 thorough). Each schedule starts from a freshly initialised library. Oracle per schedule: no ThreadSanitizer report (the "
          "scheduler is uninstrumented and hands off with raw futexes, so TSan's happens-before contains only the library's own synchronisation), no deadlock, no "
-         "crash, and every thread's result equals its result when run alone. The thorough tier repeats bound 1 under ASan+UBSan.",
+         "crash, and every thread's result equals its result when run alone. The system ICU is not instrumented; the driver therefore interposes ucnv_fromUChars / toUChars / fromUnicode / toUnicode / reset / close and writes to a per-converter shadow cell before forwarding, so that two uses of one UConverter not ordered by the library's own locks are reported by TSan as well (the driver runs in a UTF-8 locale so that local-code-page transcoding of non-ASCII strings takes its retry path). The thorough tier repeats bound 1 under ASan+UBSan.",
     trusted_base=["clang 14 ThreadSanitizer (happens-before race detection, sequentially consistent model)", "clang 14 ASan/UBSan"],
     assumptions=["more than 3 threads / 2 preemptions and weak-memory reorderings beyond TSan's model are not covered", "ICU's and libstdc++'s internal synchronisation is trusted"],
     coverage=_c17_cov,
